@@ -10,6 +10,9 @@ Native driver for C05 (Secure Binary 3.1).  Stateful line protocol (one answer l
   romkdf <keyHex> <const> <rights> <blk> <keyBits>   (ROM side, hand-written)           -> <hex>
   enc <cmd>              (constructor + export)                                         -> ok:<hex> | E:spsdk | E:other
   parse <hex>                                                                           -> ok <cmd> | <restHex>  or rej:<RomErr>
+  kdk <pckHex> <ts> <keyLen> <rights>       (KeyDerivator.__init__ through the generated call site)   -> <hex>
+  blk <kdkHex> <n> <keyLen> <rights>        (KeyDerivator.get_block_key through the generated call site) -> <hex>
+  expfull <certSignerHex> <providerPubHex> <sigHex> <overrideHex|->   (validate() + export(cert_block=override))  -> ok:<fileHex> | E:spsdk | E:other
 
 <cmd> ::= erase a l m | load a m hex | execute a | call a | fuses a hex | ifr a hex | cmac a m hex
         | copy a l dst mf mt | hashlock a m hex | keyblob off kw hex | cfgmem a m | fill a l p | fwcheck v cid | reset
@@ -19,6 +22,7 @@ Signatures are not computed here: `export` takes the signature bytes as input, `
 -/
 import Driver.Proto
 import SpsdkVerif.Model.Sb31
+import SpsdkVerif.Model.Sb31Ext
 import SpsdkVerif.Crypto.Exec
 open SpsdkVerif Driver
 open SpsdkVerif.Sb31 SpsdkVerif.Crypto
@@ -112,6 +116,23 @@ def stepLine (st : Option ObjState) : List String → Option ObjState × String
   | ["romkdf", key, const, rights, blk, keyBits] =>
     match parseHex key, parseNat const, parseNat rights, parseBool blk, parseNat keyBits with
     | some key, some const, some rights, some blk, some keyBits => (st, hx (Rom.kdf execOps key const rights blk keyBits))
+    | _, _, _, _, _ => (st, "bad-op")
+  | ["kdk", pck, ts, keyLen, rights] =>
+    match parseHex pck, parseNat ts, parseNat keyLen, parseNat rights with
+    | some pck, some ts, some keyLen, some rights =>
+      (st, hx (deriveVia execOps (Generated.Sb31Consts.kdkCall pck ts keyLen rights)))
+    | _, _, _, _ => (st, "bad-op")
+  | ["blk", kdk, n, keyLen, rights] =>
+    match parseHex kdk, parseNat n, parseNat keyLen, parseNat rights with
+    | some kdk, some n, some keyLen, some rights =>
+      (st, hx (deriveVia execOps (Generated.Sb31Consts.blkCall kdk n keyLen rights)))
+    | _, _, _, _ => (st, "bad-op")
+  | ["expfull", signer, prov, sig, ov] =>
+    match st, parseHex signer, parseHex prov, parseHex sig, (if ov == "-" then some none else if ov == "empty" then some (some []) else (parseHex ov).map some) with
+    | some s, some signer, some prov, some sig, some ov =>
+      (match exportFull { modelOps with pubOf := fun _ => prov } signer s ov sig with
+       | .ok (s', out) => (some s', "ok:" ++ toHex out)
+       | .error e => (some s, e.tag))
     | _, _, _, _, _ => (st, "bad-op")
   | "enc" :: toks =>
     match parseCmdToks toks with
